@@ -609,6 +609,12 @@ func runC19(tier string, seed int64, outdir string, replay string) error {
 			return err
 		}
 		switch k, _ := rc.Desc["kind"].(string); {
+		case strings.HasPrefix(k, "e2e-"):
+			var p c19E2EPlan
+			if err := json.Unmarshal(rc.In, &p); err != nil {
+				return err
+			}
+			c19E2E(w, []c19E2EPlan{p})
 		case k == "jobs":
 			var p c19JobPlan
 			if err := json.Unmarshal(rc.In, &p); err != nil {
@@ -747,12 +753,13 @@ func runC19(tier string, seed int64, outdir string, replay string) error {
 	for i := range plans {
 		emitJobs("random", plans[i], snaps[i])
 	}
-	// ---- (c) CA selection (what can be reached without an ACME server)
+	// ---- (c) CA selection, and the test-CA logic end to end against two mock ACME CAs
 	c19CASelection(w)
+	c19E2E(w, c19E2EPlans(tier, r))
 	w.Meta.Notes = append(w.Meta.Notes,
 		"retry instants are nanoseconds since just before doWithRetry / ManageAsync was called; the model is driven by the observed call durations and timer latencies (0 <= latency <= 3 s)",
 		"maxRetryDuration (30 days) is not reached by any run; the give-up branch is a statement about the model only",
-		"Issue's second (production) order after a test-CA success needs an ACME server; here only newACMEClient's directory choice and usingTestCA are compared")
+		"e2e cases: the real ACMEIssuer against two in-process mock ACME CAs; which CA received an order and which CA signed a certificate are observed at the CAs / by signature check")
 	w.Meta.Extra = map[string]any{"retry_cases_skipped_stalled": skippedStalled, "retry_tables_ms": "[30] [30 60 120] [40 40 80 150 150] (+2 in thorough)", "max_retry_duration_ns": int64(certmagic.VerifMaxRetryDuration)}
 	return nil
 }
